@@ -103,7 +103,7 @@ PowF(x, y) ==
            st == StripTwos(x.m, x.e)
            mo == st[1]
            eo == st[2]
-       IN IF BLen(mo) * ak > 2400 THEN Skip
+       IN IF BLen(mo) * ak > 600 THEN Skip
           ELSE
           LET s  == IF ak % 2 = 1 THEN x.s ELSE 0
               mp == Pow(mo, ak)
